@@ -266,3 +266,62 @@ func H11_legacy() {
 		vsymAssert(ok1 && e1.Key() == KeyRune && e1.Rune() == 'a', "legacy text: the following letter arrives after it")
 	}
 }
+
+// H11_pipeline: pasted text through the whole input pipeline (tty reads, reader goroutine,
+// chunk queue, main loop, event queue): a bracketed paste of four symbolic printable
+// characters arrives in three reads while the application is not polling (the event queue
+// empty or already full, so that reads pile up behind it); once the application polls it
+// gets paste-start, the four characters in order, paste-end - nothing lost, duplicated or
+// overwritten.
+func H11_pipeline() {
+	e := h01New("xterm-256color", 3, 1, false)
+	e.s.EnablePaste()
+	for e.s.HasPendingEvent() {
+		e.s.PollEvent()
+	}
+	pre := []int{0, 10}[vsymChoice("prefill", 2)]
+	for i := 0; i < pre; i++ {
+		_ = e.s.PostEvent(NewEventInterrupt(nil))
+	}
+	txt := vsymBytes("txt", 4)
+	for i := range txt {
+		vsymAssume(vsymAnd(txt[i] >= 0x21, txt[i] <= 0x7e))
+	}
+	r1 := append([]byte("\x1b[200~"), txt[0], txt[1])
+	r2 := []byte{txt[2], txt[3]}
+	r3 := []byte("\x1b[201~")
+	e.tty.inCh <- r1
+	if vsymChoice("gap", 2) == 1 {
+		vsymRunBlocked()
+	}
+	e.tty.inCh <- r2
+	e.tty.inCh <- r3
+	vsymRunBlocked()
+	var got []Event
+	for i := 0; i < pre+6; i++ {
+		if !e.s.HasPendingEvent() {
+			vsymRunBlocked()
+		}
+		if !e.s.HasPendingEvent() {
+			break
+		}
+		ev := e.s.PollEvent()
+		vsymRunBlocked()
+		if i >= pre {
+			got = append(got, ev)
+		}
+	}
+	vsymAssert(len(got) == 6, "pipeline: paste-start, one event per pasted character, paste-end")
+	if len(got) == 6 {
+		p0, ok0 := got[0].(*EventPaste)
+		p1, ok1 := got[5].(*EventPaste)
+		vsymAssert(ok0 && p0.Start() && ok1 && p1.End(), "pipeline: the text is bracketed by paste-start and paste-end")
+		for i := 0; i < 4; i++ {
+			k, ok := got[1+i].(*EventKey)
+			vsymAssert(ok && k.Key() == KeyRune && k.Rune() == rune(txt[i]), "pipeline: pasted character i arrives as rune key event i (reads queued behind a full event queue are not overwritten)")
+		}
+	}
+	vsymRunBlocked()
+	vsymAssert(!e.s.HasPendingEvent(), "pipeline: nothing is delivered twice")
+	e.s.Fini()
+}
